@@ -84,7 +84,7 @@ assert len(CAT) == 61
 NO_IDLE_METHOD = {'Apo', 'Aroon', 'Bop', 'TypicalPrice'}
 
 # ---------------------------------------------------------------- series
-REGIMES = ['walk', 'walk', 'walk', 'flat', 'up', 'down', 'zigzag', 'ties', 'plateau']
+REGIMES = ['walk', 'walk', 'walk', 'flat', 'up', 'down', 'zigzag', 'ties', 'plateau', 'offset', 'outlier']
 
 
 def q(x):
@@ -95,9 +95,19 @@ def q(x):
 def gen_ohlcv(rng, n, regime=None):
     regime = regime or rng.choice(REGIMES)
     base = rng.choice([2.0, 10.0, 100.0, 500.0])
+    if regime == 'offset':
+        base = float(2 ** 27)       # a high price level with a small spread (cancellation-prone formulas show up here)
     close, c = [], base
+    spike = rng.randrange(0, max(1, n)) if regime == 'outlier' else -1
     for i in range(n):
-        if regime == 'walk':
+        if regime == 'offset':
+            c = base + rng.randrange(-200, 200) / 64.0
+        elif regime == 'outlier':
+            c = max(1.0, c + rng.uniform(-0.03, 0.03) * base)
+            if i == spike:
+                close.append(float(2 ** 30))
+                continue
+        elif regime == 'walk':
             c = max(1.0, c + rng.uniform(-0.03, 0.03) * base)
         elif regime == 'flat':
             c = base
@@ -116,9 +126,9 @@ def gen_ohlcv(rng, n, regime=None):
     o, h, l, v = [], [], [], []
     prev = close[0] if close else base
     for i, c in enumerate(close):
-        op = q(prev + (rng.uniform(-0.01, 0.01) * base if regime not in ('flat',) else 0))
+        op = q(prev + (rng.uniform(-0.01, 0.01) * (base if regime != 'offset' else 100.0) if regime not in ('flat',) else 0))
         op = max(1 / 64.0, op)
-        spread = 0.0 if regime == 'flat' and rng.random() < 0.7 else rng.choice([0, 1, 2, 5]) * base / 640
+        spread = 0.0 if regime == 'flat' and rng.random() < 0.7 else rng.choice([0, 1, 2, 5]) * (base if regime != 'offset' else 64.0) / 640
         hi = q(max(op, c) + spread * rng.random())
         lo = q(max(1 / 64.0, min(op, c) - spread * rng.random()))
         hi = max(hi, op, c)
